@@ -266,6 +266,10 @@ func c12Cases() []c12Case {
 			{"through-ref-param", "fn peek(q: &" + al + "::Pub) -> i32 {\n    return q.FIELD;\n}\n", "let a := peek(&p);"},
 			{"through-mut-ref-param", "fn poke(q: &'" + al + "::Pub) {\n    q.FIELD = 7;\n}\n", "poke(&'p);"},
 			{"array-element-field", "", "let arr: [1]" + al + "::Pub = [" + al + "::MkPub()];\n    let a := arr[0].FIELD;"},
+			// inside a method of an unrelated local type, through a name that shadows the receiver
+			{"method-closure-param-shadows-receiver", "fn (h: &Holder) viaClosure(o: " + al + "::Pub) -> i32 {\n    let f := fn(h: " + al + "::Pub) -> i32 {\n        return h.FIELD;\n    };\n    return f(o);\n}\n", "let a := 1;"},
+			{"method-nested-let-shadows-receiver", "fn (h: &Holder) viaBlock(o: " + al + "::Pub) -> i32 {\n    if o.X > -100 {\n        let h := o;\n        return h.FIELD;\n    }\n    return 0;\n}\n", "let a := 1;"},
+			{"method-non-receiver-param", "fn (h: &Holder) viaParam(o: " + al + "::Pub) -> i32 {\n    return o.FIELD;\n}\n", "let a := 1;"},
 		}
 		for _, lowerCase := range []bool{true, false} {
 			f, cs := "X", "upper"
@@ -307,6 +311,8 @@ fn (l: &'Loc) setViaReceiver(v: i32) {
 		{"method-of-other-type", "fn (o: &Other) spy(l: &Loc) -> i32 {\n    return l.FIELD;\n}\n", "let a := 1;"},
 		{"own-method-non-receiver", "fn (l: &Loc) cmp(other: &Loc) -> bool {\n    return other.FIELD > 0;\n}\n", "let a := 1;"},
 		{"closure-in-main", "", "let lo: Loc = { .Pubf = 1, .privf = 2 };\n    let cl := fn() -> i32 {\n        return lo.FIELD;\n    };"},
+		{"other-method-closure-param-shadows-receiver", "fn (o: &Other) spy2(l: &Loc) -> i32 {\n    let f := fn(o: &Loc) -> i32 {\n        return o.FIELD;\n    };\n    return f(l);\n}\n", "let a := 1;"},
+		{"other-method-nested-let-shadows-receiver", "fn (o: &Other) spy3(l: &Loc) -> i32 {\n    if l.Pubf > -100 {\n        let o := l;\n        return o.FIELD;\n    }\n    return 0;\n}\n", "let a := 1;"},
 	}
 	for _, lowerCase := range []bool{true, false} {
 		f, cs := "Pubf", "upper"
